@@ -10,7 +10,7 @@ the same implementation: a deviation beyond the property's tolerance means the f
 (number formatting / parsing, float() conversions, rounding, int() truncation, math functions) does
 something the exact run cannot see.
 """
-import sys, os, json, importlib, signal
+import sys, os, json, importlib
 VERIF = os.path.dirname(os.path.dirname(os.path.abspath(__file__)))
 sys.path.insert(0, os.path.join(VERIF, 'harness'))
 import core
@@ -27,19 +27,8 @@ def main():
     assert here.startswith(os.path.realpath(core.REPO) + os.sep), here
     out = []
 
-    def on_alarm(signum, frame):
-        raise core.Hang()
-    signal.signal(signal.SIGALRM, on_alarm)
     for c in cases:
-        signal.setitimer(signal.ITIMER_REAL, core.CASE_LIMIT_S)
-        try:
-            out.append(str(mod.impl(c)))
-        except core.Hang:
-            out.append('HANG')
-        except Exception as e:
-            out.append('ERR')
-        finally:
-            signal.setitimer(signal.ITIMER_REAL, 0)
+        out.append(str(core.safe(mod.impl, c)))
     json.dump(out, sys.stdout)
 
 
